@@ -5,12 +5,18 @@ import rtlib
 BUILDS = {"default": None, "async-spawn": "async-spawn", "inter-task-wakeup": "inter-task-wakeup"}
 
 
-def gen_body(rng, build, mine, nbodies, j, maxbody, stats, root, can_spawn, first_task):
+def gen_body(rng, build, mine, nbodies, j, maxbody, stats, root, can_spawn, first_task, block=False):
     """one body program; `mine` = the calls this body uses (mostly), `can_spawn` = children it may spawn"""
     itw = build == "inter-task-wakeup"
     body, created, pending = [], [], False
     n = rng.randint(1, maxbody)
     spawn_left = list(can_spawn)
+    if block and j == 0 and mine and rng.random() < 0.85:
+        # block_on: register something first (the waitable set exists from then on; known finding otherwise)
+        k = mine[0]
+        created.append(k)
+        body += [f"c{k}", f"p{k}"]
+        pending = True
     for _ in range(n):
         r = rng.random()
         if spawn_left and r < 0.25:
@@ -33,7 +39,7 @@ def gen_body(rng, build, mine, nbodies, j, maxbody, stats, root, can_spawn, firs
             body.append("y")
         elif r < 0.80:
             # going to sleep on a Rust-only event: usually with a captured waker, so that somebody can wake
-            if not itw and not pending and rng.random() < 0.9:
+            if not itw and (not pending or rng.random() < 0.5) and rng.random() < 0.9:
                 body.append("y")          # (documented panic otherwise)
             else:
                 if rng.random() < 0.75:
@@ -56,7 +62,7 @@ def gen_body(rng, build, mine, nbodies, j, maxbody, stats, root, can_spawn, firs
 
 def gen_exec_script(rng, build, maxcalls, maxbody, stats=None):
     driver = "start" if rng.random() < 0.8 else "block"
-    ncalls = rng.randint(0, maxcalls)
+    ncalls = rng.randint(0, maxcalls) if driver == "start" or rng.random() < 0.15 else rng.randint(1, maxcalls)
     specs = [rtlib.gen_callspec(rng) for _ in range(ncalls)]
     spawn = build == "async-spawn"
     nchildren = rng.choice([0, 1, 1, 2, 3]) if spawn else rng.choice([0, 0, 0, 1])
@@ -77,7 +83,7 @@ def gen_exec_script(rng, build, maxcalls, maxbody, stats=None):
         else:
             cs = []
         root = j == 0 or (second and j == nbodies - 1)
-        bodies.append(gen_body(rng, build, mine, nbodies, j, maxbody, stats, root, cs, j == 0))
+        bodies.append(gen_body(rng, build, mine, nbodies, j, maxbody, stats, root, cs, j == 0, driver == "block"))
     host = []
     m = rng.randint(0, 2 * maxbody)
     started2 = False
